@@ -19,12 +19,14 @@ SERVER_TB = ['translator reading of cmd/server/files.go and storage.go (routes, 
 
 PROPS = {
     'C01': {
-        'props': ['theories/Props/C01.v'], 'deps': CODEC_DEPS,
+        'props': ['theories/Props/C01.v', 'theories/Props/C01File.v'],
+        'deps': CODEC_DEPS + READER_DEPS + ['theories/Theory/ScanSpec.v', 'theories/Theory/Segments.v', 'theories/Theory/FileRoundTrip.v', 'theories/Theory/FormatShape.v',
+                                           'theories/Theory/TagLocal.v', 'theories/Theory/TagSpecial.v', 'theories/Theory/FileRoundTripFull.v', 'theories/Theory/WriterFacts.v', 'gen/Writer.v'],
         'streams': ['l2-tags', 'l5-props'],
         'trusted_base': ['translator reading of the 60 Parse/Format functions into step lists (translator/tags.go), tied by stream l2-tags (300k cases, zero disagreements)',
                          'hand model of converters.go (Model/Converters.v)'],
-        'assumptions': COMMON_ASSUME + ['file-level composition (writer plan + reader) is exercised by stream l5-props on the implementation; the theorems are per tag',
-                                        '4 special tags ({1120} {1500} {3600} {8200}) and the validity-dependent minimum-length guards of 8 tags are covered by correspondence only'],
+        'assumptions': COMMON_ASSUME + ['the file-level theorem covers messages whose present tags are among 50 (48 regular tags with a static length guard, {1500}, {3600}); {1120}, {8200} and the 8 tags whose minimum-length guard depends on validity are covered per tag / by correspondence only',
+                                        'the file-level theorem assumes the written text is shorter than the 64 KiB scanner limit (all tags together stay below 27 KiB)'],
     },
     'C04': {
         'props': ['theories/Props/C04.v'], 'deps': READER_DEPS + VERIFY_DEPS,
